@@ -361,4 +361,94 @@ example : addSub false ⟨-15, 3⟩ ⟨0, 1⟩ = .ok ⟨-15, 3⟩ ∧ addSub fal
     addSub false ⟨I128_MAX, 0⟩ ⟨0, 1⟩ = .panic .overflow := by decide
 example : addSub true ⟨-2575, 3⟩ ⟨-2575, 3⟩ = .ok ⟨0, 3⟩ ∧ addSub true ⟨I128_MIN, 40⟩ ⟨I128_MIN, 40⟩ = .ok ⟨0, 40⟩ := by decide
 
+/-! ### algebraic laws: the checked variants agree with the operators
+`checked_add` / `checked_sub` never panic (they are `Option`-valued in the model: no panicking site occurs in them); the operator is
+the checked variant with `None` turned into the overflow panic.  The only hypothesis is that no scaling exponent leaves the table
+of powers of ten (at most 38; `Dom` gives at most 18) — past it the operator panics with an index panic and the checked variant
+returns `None`. -/
+
+/-- `x ± y` is `x.checked_add(y)` / `x.checked_sub(y)` with `None` replaced by the overflow panic -/
+theorem add_sub_eq_checked (sub : Bool) (x y : Dec) (hp : x.nfrac ≤ 38) (hq : y.nfrac ≤ 38) :
+    addSub sub x y = Outcome.ofOption .overflow (checkedAddSub sub x y) := by
+  obtain ⟨a, p⟩ := x
+  obtain ⟨b, q⟩ := y
+  simp only at hp hq
+  unfold addSub checkedAddSub
+  rcases Nat.lt_trichotomy p q with h | h | h
+  · simp only [cmp_lt h]
+    rw [mulPowTen_eq a (q - p) (by omega), checkedMulPowTen_eq a (q - p) (by omega)]
+    cases checkedI128 (a * (10 : Int) ^ (q - p)) with
+    | none => rfl
+    | some c =>
+      simp only [Outcome.ofOption_some, Outcome.bind_ok, Option.bind_eq_bind, Option.bind_some, coeffOrPanic]
+      cases checkedI128 (if sub = true then c - b else c + b) <;> rfl
+  · subst h
+    have hc : compare p p = .eq := by simp
+    simp only [hc, coeffOrPanic]
+    cases checkedI128 (if sub = true then a - b else a + b) <;> rfl
+  · simp only [cmp_gt h]
+    rw [mulPowTen_eq b (p - q) (by omega), checkedMulPowTen_eq b (p - q) (by omega)]
+    cases checkedI128 (b * (10 : Int) ^ (p - q)) with
+    | none => rfl
+    | some c =>
+      simp only [Outcome.ofOption_some, Outcome.bind_ok, Option.bind_eq_bind, Option.bind_some, coeffOrPanic]
+      cases checkedI128 (if sub = true then a - c else a + c) <;> rfl
+
+/-- `Some(r)` exactly when the operator returns `r` -/
+theorem checked_add_sub_some_iff (sub : Bool) (x y r : Dec) (hx : Dom x) (hy : Dom y) :
+    checkedAddSub sub x y = some r ↔ addSub sub x y = .ok r := by
+  rw [add_sub_eq_checked sub x y (by have := hx.2.2; omega) (by have := hy.2.2; omega), ofOption_eq_ok_iff]
+
+/-- `None` exactly when the operator panics, and the panic is the overflow panic -/
+theorem checked_add_sub_none_iff (sub : Bool) (x y : Dec) (hx : Dom x) (hy : Dom y) :
+    checkedAddSub sub x y = none ↔ addSub sub x y = .panic .overflow := by
+  rw [add_sub_eq_checked sub x y (by have := hx.2.2; omega) (by have := hy.2.2; omega), ofOption_eq_panic_iff]
+  simp
+
+/-- `+` / `-` on Decimals of the domain raise no other panic than the overflow panic -/
+theorem add_sub_panic_kind (sub : Bool) (x y : Dec) (k : PanicKind) (hx : Dom x) (hy : Dom y)
+    (h : addSub sub x y = .panic k) : k = .overflow := by
+  rw [add_sub_eq_checked sub x y (by have := hx.2.2; omega) (by have := hy.2.2; omega), ofOption_eq_panic_iff] at h
+  exact h.2
+
+/-- the integer shapes (`Decimal ± int`, `int ± Decimal`, 9 integer types) against their checked variants -/
+theorem add_sub_int_eq_checked (sub intLeft : Bool) (d : Dec) (i : Int) (hp : d.nfrac ≤ 38) :
+    addSubInt sub intLeft d i = Outcome.ofOption .overflow (checkedAddSubInt sub intLeft d i) := by
+  obtain ⟨a, p⟩ := d
+  simp only at hp
+  unfold addSubInt checkedAddSubInt
+  by_cases h0 : p = 0
+  · subst h0
+    simp only [if_true, coeffOrPanic]
+    cases checkedI128 (if intLeft = true then (if sub = true then i - a else i + a) else (if sub = true then a - i else a + i)) <;> rfl
+  · simp only [h0, if_false]
+    rw [mulPowTen_eq i p hp, checkedMulPowTen_eq i p hp]
+    cases checkedI128 (i * (10 : Int) ^ p) with
+    | none => rfl
+    | some c =>
+      simp only [Outcome.ofOption_some, Outcome.bind_ok, Option.bind_eq_bind, Option.bind_some, coeffOrPanic]
+      cases checkedI128 (if intLeft = true then (if sub = true then c - a else c + a) else (if sub = true then a - c else a + c)) <;> rfl
+
+theorem checked_add_sub_int_some_iff (sub intLeft : Bool) (d r : Dec) (i : Int) (hd : Dom d) :
+    checkedAddSubInt sub intLeft d i = some r ↔ addSubInt sub intLeft d i = .ok r := by
+  rw [add_sub_int_eq_checked sub intLeft d i (by have := hd.2.2; omega), ofOption_eq_ok_iff]
+
+theorem checked_add_sub_int_none_iff (sub intLeft : Bool) (d : Dec) (i : Int) (hd : Dom d) :
+    checkedAddSubInt sub intLeft d i = none ↔ addSubInt sub intLeft d i = .panic .overflow := by
+  rw [add_sub_int_eq_checked sub intLeft d i (by have := hd.2.2; omega), ofOption_eq_panic_iff]
+  simp
+
+theorem add_sub_int_panic_kind (sub intLeft : Bool) (d : Dec) (i : Int) (k : PanicKind) (hd : Dom d)
+    (h : addSubInt sub intLeft d i = .panic k) : k = .overflow := by
+  rw [add_sub_int_eq_checked sub intLeft d i (by have := hd.2.2; omega), ofOption_eq_panic_iff] at h
+  exact h.2
+
+example : checkedAddSub false ⟨15, 1⟩ ⟨25, 2⟩ = some ⟨175, 2⟩ ∧ addSub false ⟨15, 1⟩ ⟨25, 2⟩ = .ok ⟨175, 2⟩ ∧
+    checkedAddSub true ⟨I128_MIN + 1, 0⟩ ⟨1, 0⟩ = some ⟨I128_MIN, 0⟩ ∧ addSub true ⟨I128_MIN + 1, 0⟩ ⟨1, 0⟩ = .ok ⟨I128_MIN, 0⟩ ∧
+    checkedAddSub true ⟨I128_MIN + 1, 0⟩ ⟨2, 0⟩ = none ∧ addSub true ⟨I128_MIN + 1, 0⟩ ⟨2, 0⟩ = .panic .overflow ∧
+    checkedAddSubInt true true ⟨5, 1⟩ 3 = some ⟨25, 1⟩ ∧ addSubInt true true ⟨5, 1⟩ 3 = .ok ⟨25, 1⟩ ∧
+    checkedAddSubInt false false ⟨5, 1⟩ I128_MAX = none ∧ addSubInt false false ⟨5, 1⟩ I128_MAX = .panic .overflow := by decide
+-- outside the hypothesis (a scaling exponent past the table of powers): index panic against `None`
+example : addSub false ⟨1, 39⟩ ⟨1, 0⟩ = .panic .index ∧ checkedAddSub false ⟨1, 39⟩ ⟨1, 0⟩ = none := by decide
+
 end Fpdec.Props.C01
